@@ -42,7 +42,51 @@ func NewTypeWorld() *TypeWorld {
 	return &TypeWorld{structs: map[string]*StructInfo{}, typeIDs: map[string]int{}, typeByID: []types.Type{nil}, shortUsed: map[string]string{}}
 }
 
-func typeKey(t types.Type) string { return types.TypeString(t, nil) }
+func typeKey(t types.Type) string {
+	if b, ok := t.(*types.Basic); ok {
+		switch b.Kind() {
+		case types.Uint8:
+			return "uint8"
+		case types.Int32:
+			return "int32"
+		}
+	}
+	s := types.TypeString(t, nil)
+	if strings.Contains(s, "byte") || strings.Contains(s, "rune") {
+		s = canonBasicNames(s)
+	}
+	return s
+}
+
+// canonBasicNames rewrites the alias spellings byte / rune inside composite type strings.
+func canonBasicNames(s string) string {
+	var b strings.Builder
+	i := 0
+	isIdent := func(c byte) bool {
+		return c == '_' || c == '.' || c == '/' || c >= '0' && c <= '9' || c >= 'a' && c <= 'z' || c >= 'A' && c <= 'Z'
+	}
+	for i < len(s) {
+		if isIdent(s[i]) {
+			j := i
+			for j < len(s) && isIdent(s[j]) {
+				j++
+			}
+			w := s[i:j]
+			switch w {
+			case "byte":
+				w = "uint8"
+			case "rune":
+				w = "int32"
+			}
+			b.WriteString(w)
+			i = j
+			continue
+		}
+		b.WriteByte(s[i])
+		i++
+	}
+	return b.String()
+}
 
 func shortTypeName(t types.Type) string {
 	s := types.TypeString(t, func(p *types.Package) string { return p.Name() })
